@@ -426,13 +426,10 @@ func expectContention(d *Doc) *Exp {
 	p := e.Period
 	for _, r := range d.Recs {
 		s := EStack{Locs: locsAllBack(r.Addrs)}
+		// A record of a profile sampled with period p stands for p contentions,
+		// whether or not the header also gives cycles/second (which only concerns
+		// the conversion of the delay column to time).
 		cnt := exact(r.N * p)
-		if d.Hz <= 0 {
-			// "Unsample values if period and cpuHz are available": without
-			// cycles/second the raw count is accepted as well
-			alt := exact(r.N)
-			cnt.Alt = &alt
-		}
 		var delay Range
 		if d.Hz > 0 {
 			// cycles * period, converted to nanoseconds: / (Hz/1e9)
